@@ -68,3 +68,35 @@ func VerifH_C06_Partitions(mbW, mbH, numParts, driver int) {
 	}
 	verifapi.Assert(tb.mbStart[total] == n, "the ranges cover every recorded token")
 }
+
+// VerifH_C06_PredContextTwins: the row-parallel encoder's copy of the prediction-context fill
+// (fillPredContextParallel) writes exactly what the serial MBIterator.FillPredContext writes, for every
+// macroblock position (first/middle/last column, first/other row) and all neighbouring samples -
+// the serial one mirrors the decoder's border rules (127/129 fills, top-right replication), so a
+// divergence here is encoder/decoder drift that only the parallel driver shows.
+func VerifH_C06_PredContextTwins(mbX, mbY, mbW int) {
+	topY, topU, topV := verifapi.Bytes("topY", mbW*16), verifapi.Bytes("topU", mbW*8), verifapi.Bytes("topV", mbW*8)
+	var leftY [16]uint8
+	var leftU, leftV [8]uint8
+	for i := range leftY {
+		leftY[i] = verifapi.U8("leftY")
+	}
+	for i := range leftU {
+		leftU[i], leftV[i] = verifapi.U8("leftU"), verifapi.U8("leftV")
+	}
+	tlY, tlU, tlV := verifapi.U8("tlY"), verifapi.U8("tlU"), verifapi.U8("tlV")
+	dirt := verifapi.Bytes("dirt", YUVSize)
+
+	enc := &VP8Encoder{mbW: mbW, mbH: mbY + 2}
+	enc.yuvOut = append([]byte(nil), dirt...)
+	it := &MBIterator{enc: enc, X: mbX, Y: mbY, topY: topY, topU: topU, topV: topV, leftY: leftY, leftU: leftU, leftV: leftV,
+		topLeftY: tlY, topLeftU: tlU, topLeftV: tlV}
+	it.FillPredContext(enc)
+
+	w := &RowWorker{yuvOut: append([]byte(nil), dirt...)}
+	fillPredContextParallel(w, enc, mbX, mbY, mbW, topY, topU, topV, leftY[:], leftU[:], leftV[:], tlY, tlU, tlV)
+	for i := 0; i < YUVSize; i++ {
+		verifapi.Assert(w.yuvOut[i] == enc.yuvOut[i], "parallel and serial drivers prepare the same prediction context")
+	}
+	verifapi.Cover(true, "compared")
+}
